@@ -568,6 +568,12 @@ func c07E2ECase(c *Ctx) *Result {
 		return res
 	}
 	defer env.Close()
+	inPlace := r.Intn(2) == 0
+	params["users_map_edited_in_place"] = inPlace
+	um := usersMap(append(append([]UserSpec(nil), users...), UserSpec{"dave", "dave-secret"}))
+	if inPlace {
+		env.Srv.SetServerUsers(um) // an earlier reload had added dave
+	}
 	// alice keeps a session open from 10.0.1.1
 	am, _ := env.NewClient(0, "10.0.1.1")
 	open := &SessPlan{Idx: 0, CloseBy: -1, W: [2][]int{{500, 2000}, {700}}, R: [2][]int{{4096}, {4096}}, Key: [2]uint64{key2(c.Seed, c.Idx, 0, 0, 7), key2(c.Seed, c.Idx, 0, 1, 7)}}
@@ -585,7 +591,17 @@ func c07E2ECase(c *Ctx) *Result {
 	if mode == "rotate" {
 		newUsers = []UserSpec{{"alice", "alice-NEW-secret"}, users[1], users[2]}
 	}
-	env.Srv.SetServerUsers(usersMap(newUsers))
+	if inPlace {
+		// the embedding application keeps one users map, edits it and publishes it again
+		if mode == "rotate" {
+			um["alice"].Password = proto.String("alice-NEW-secret")
+		} else {
+			delete(um, "alice")
+		}
+		env.Srv.SetServerUsers(um)
+	} else {
+		env.Srv.SetServerUsers(usersMap(newUsers))
+	}
 	time.Sleep(time.Duration(pick(r, 0, 10, 3000)) * time.Millisecond)
 	// a new connection with alice's OLD credential (env.Cfg.Users[0] still has it)
 	ip := "10.0.1.1"
